@@ -91,7 +91,12 @@ func CloneTo[T any](maybeSelf MaybeDef[T], dest T) MaybeDef[T] {
 		y := reflect.New(starX.Type())
 		starY := y.Elem()
 		starY.Set(starX)
-		reflect.ValueOf(dest).Elem().Set(y.Elem())
+		destValue := reflect.ValueOf(dest)
+		if !destValue.IsValid() || destValue.Kind() != reflect.Ptr || destValue.IsNil() {
+			// No destination to copy into (e.g. Clone()): hand out the fresh copy itself
+			return JustGenerics(y.Interface().(T))
+		}
+		destValue.Elem().Set(y.Elem())
 		return JustGenerics(dest)
 	}
 	dest = x.Interface().(T)
